@@ -1,7 +1,7 @@
 import sys
 x, prop, hint = sys.argv[1], sys.argv[2], sys.argv[3]
 wt=f"/tmp/seedwt_{x}"
-print(f"""You are working in a scratch git worktree of the Vyxal 2 interpreter (a stack-based golfing language: lexer, parser, transpiler to Python, element library) at {wt}. Work ONLY inside {wt}. Never touch /repo or /verif. Never use `git stash`. Run Python with /venv/bin/python (the package imports from the worktree when you run from {wt}, e.g. `cd {wt} && /venv/bin/python -c "import vyxal; print(vyxal.__file__)"` — check that it prints a path under {wt}; if not, set PYTHONPATH={wt}). The existing test suite is run with: `cd {wt} && /venv/bin/python -m pytest -q -p no:cacheprovider --timeout=900`. Always run experiments under `timeout 120` (some Vyxal programs loop forever).
+print(f"""You are working in a scratch git worktree of the Vyxal 2 interpreter (a stack-based golfing language: lexer, parser, transpiler to Python, element library) at {wt}. Work ONLY inside {wt}. Never touch /repo or /verif, and do not read anything under /verif either (not even a directory listing): your change must be designed from the property and the source alone. Never use `git stash`. Run Python with /venv/bin/python (the package imports from the worktree when you run from {wt}, e.g. `cd {wt} && /venv/bin/python -c "import vyxal; print(vyxal.__file__)"` — check that it prints a path under {wt}; if not, set PYTHONPATH={wt}). The existing test suite is run with: `cd {wt} && /venv/bin/python -m pytest -q -p no:cacheprovider --timeout=900`. Always run experiments under `timeout 120` (some Vyxal programs loop forever).
 
 Here is a semantic property the interpreter is supposed to satisfy (read it from /tmp/prop_{prop}.json — it contains the statement, the quantifier and the anchors in the code).
 
